@@ -795,6 +795,104 @@ def ob_job_rules(ctx, template, dims=1, n_places=1):
     return res
 
 
+def ob_id_rules(ctx):
+    """C10 (id and cost rules): `check_e1100` (duplicate job ids), `check_e1104` (reserved job ids), `check_e1300` (duplicate
+    vehicle type ids), `check_e1301` (duplicate vehicle ids, across types), `check_e1306` (time and distance cost both zero) -
+    real MIR incl. `get_duplicates` with its hash sets as association lists over the id strings - on a plan of three jobs and
+    a fleet of two vehicle types (1-2 vehicle ids each) whose ids are symbolic choices from small alphabets and whose costs
+    are symbolic: each rule is reported exactly when the documented condition is broken."""
+    name = 'id_rules'
+    res = Result(name)
+    res.bounds = ('3 jobs, ids from {a, b, departure, break}; 2 vehicle types, type ids from {t1, t2}, vehicle ids (1 + 2) from {v1, v2, v3}; '
+                  'time / distance costs integer-valued in [0,2^16]')
+    t0 = time.time()
+    rules = {'E1100': 'check_e1100_no_jobs_with_duplicate_ids', 'E1104': 'check_e1104_no_reserved_ids', 'E1300': 'check_e1300_no_vehicle_types_with_duplicate_type_ids',
+             'E1301': 'check_e1301_no_vehicle_types_with_duplicate_ids', 'E1306': 'check_e1306_vehicle_has_no_zero_costs'}
+    none = lambda ty: mk_option(False, ty=ty)
+    JOB_IDS = ('a', 'b', 'departure', 'break')
+    for code, fname in rules.items():
+        fn = ctx.prog.find_free(fname)
+
+        class Env(CheckerEnv):
+            symbolic_maps = True
+
+        env = Env(ctx.prog, ctx.layout, 16)
+        eng, _ = ctx.engines(env)
+        holder = {}
+
+        def body(st, env=env, eng=eng, fn=fn, holder=holder, code=code):
+            env.assumptions.clear()
+            jids = []
+            for i in range(3):
+                c = z3.Int(f'job{i}_id')
+                jids.append(eng.choose(st, [(c == k, JOB_IDS[k]) for k in range(4)]) if code in ('E1100', 'E1104') else f'job{i}')
+            jobs = [env.struct('problem::model::Job', id=Opaque(f'"{j}"'), pickups=none('Option<Vec<JobTask>>'), deliveries=none('Option<Vec<JobTask>>'),
+                               replacements=none('Option<Vec<JobTask>>'), services=none('Option<Vec<JobTask>>'), skills=none('Option<JobSkills>'), value=none('Option<f64>'),
+                               group=none('Option<String>'), compatibility=none('Option<String>')) for j in jids]
+            tids, vids, costs = [], [], []
+            types = []
+            for t in range(2):
+                c = z3.Int(f'type{t}_id')
+                tid = eng.choose(st, [(c == 0, 't1'), (c == 1, 't2')]) if code == 'E1300' else f't{t + 1}'
+                ids = []
+                for v in range(1 + t):
+                    cv = z3.Int(f'type{t}_vehicle{v}_id')
+                    ids.append(eng.choose(st, [(cv == k, x) for k, x in enumerate(('v1', 'v2', 'v3'))]) if code == 'E1301' else f'v{t}{v}')
+                ct, cd = env.sym_f(f'type{t}_time_cost'), env.sym_f(f'type{t}_distance_cost')
+                vc = env.struct('problem::model::VehicleCosts', fixed=none('Option<f64>'), distance=cd, time=ct)
+                types.append(Agg('struct', [Opaque(f'"{tid}"') if f == 'type_id' else VecV([Opaque(f'"{x}"') for x in ids]) if f == 'vehicle_ids' else vc if f == 'costs' else Opaque(f)
+                                            for f in ctx.layout.fields('problem::model::VehicleType')], 'problem::model::VehicleType'))
+                tids.append(tid); vids.append(ids); costs.append((ct, cd))
+            fleet = Agg('struct', [VecV(types) if f == 'vehicles' else Opaque(f) for f in ctx.layout.fields('problem::model::Fleet')], 'problem::model::Fleet')
+            plan_ = env.struct('problem::model::Plan', jobs=VecV(jobs), relations=none('Option<Vec<Relation>>'), clustering=none('Option<Clustering>'))
+            problem = env.struct('problem::model::Problem', plan=plan_, fleet=fleet, objectives=none('Option<Vec<Objective>>'))
+            vctx = env.struct('validation::ValidationContext', problem=RefV(Cell(problem), 0), matrices=none('Option<&Vec<Matrix>>'), coord_index=RefV(Cell(Opaque('coord_index')), 0),
+                              job_index=Opaque('job_index'))
+            holder.update(jids=jids, tids=tids, vids=vids, costs=costs)
+            return (list(jids), list(tids), [list(x) for x in vids], eng.exec_fn(st, fn, [RefV(Cell(vctx), 0)]))
+
+        paths = eng.explore(body, max_paths=6000)
+        res.paths += len(paths)
+        res.functions |= eng.functions_used
+        saw_ok = saw_err = False
+        for st, out in paths:
+            if out is None:
+                if not no_panic(ctx, res, env, st, what=name):
+                    break
+                continue
+            jids, tids, vids, r = out
+            costs = holder['costs']
+            flat = [x for ids in vids for x in ids]
+            broken = {'E1100': z3.BoolVal(len(set(jids)) != len(jids)), 'E1104': z3.BoolVal(any(j in ('departure', 'arrival', 'break', 'reload') for j in jids)),
+                      'E1300': z3.BoolVal(len(set(tids)) != len(tids)), 'E1301': z3.BoolVal(len(set(flat)) != len(flat)),
+                      'E1306': z3.Or(*[z3.And(ct.v == 0, cd.v == 0) for ct, cd in costs])}[code]
+            reported = r.discr == 1
+            if not decide_claim(ctx, res, env, st, reported == broken, what=f'{name}: {code} reported <=> rule broken (jobs {jids}, types {tids}, vehicles {vids})'):
+                if res.status == 'violated' and res.model is not None:
+                    m = res.model
+                    cost_doc = [{'fixed': 1.0, 'time': float(_ev_int(m, ct.v)), 'distance': float(_ev_int(m, cd.v))} for ct, cd in costs]
+                    far = rfc3339(30 * 86400)
+                    vehicles = [{'typeId': tids[t], 'vehicleIds': vids[t], 'profile': {'matrix': 'car'}, 'costs': cost_doc[t],
+                                 'shifts': [{'start': {'earliest': rfc3339(0), 'location': {'index': 0}}, 'end': {'latest': far, 'location': {'index': 0}}}], 'capacity': [10]} for t in range(2)]
+                    jobs_doc = [{'id': j, 'deliveries': [{'places': [{'location': {'index': 0}, 'duration': 0.0}], 'demand': [1]}]} for j in jids]
+                    res.case = {'kind': 'id_rules', 'rule': code, 'broken': bool(z3.is_true(m.eval(broken, model_completion=True))),
+                                'problem': {'plan': {'jobs': jobs_doc}, 'fleet': {'vehicles': vehicles, 'profiles': [{'name': 'car'}]}},
+                                'matrix': {'profile': 'car', 'travelTimes': [0], 'distances': [0]}}
+                break
+            if not no_panic(ctx, res, env, st, what=name):
+                break
+            saw_ok = saw_ok or witness(ctx, res, env, st, z3.Not(reported))
+            saw_err = saw_err or witness(ctx, res, env, st, reported)
+        if res.status != 'holds':
+            break
+        res.witnesses += int(saw_ok) + int(saw_err)
+        if not (saw_ok and saw_err):
+            res.status, res.detail = 'inconclusive', f'vacuous ({code}): ok={saw_ok} err={saw_err}'
+            break
+    res.time = time.time() - t0
+    return res
+
+
 def rules_problem(job, dims, costs=None):
     far = rfc3339(30 * 86400)
     return {'plan': {'jobs': [job]},
